@@ -30,6 +30,7 @@ from .values import (
     to_integer,
     is_nan,
     JS_WHITESPACE,
+    native_result,
 )
 from .errors import (
     JSError,
@@ -2369,7 +2370,7 @@ class VM:
             # Use synchronous execution (like _call_callback)
             return self._call_callback(getter, [], this_val)
         elif callable(getter):
-            return getter()
+            return native_result(getter())
         return UNDEFINED
 
     def _invoke_setter(self, setter: Any, this_val: JSValue, value: JSValue) -> None:
@@ -2392,7 +2393,7 @@ class VM:
         elif callable(callee):
             # Native function
             result = callee(*args)
-            self.stack.append(result if result is not None else UNDEFINED)
+            self.stack.append(native_result(result))
         else:
             raise JSTypeError(f"{callee} is not a function")
 
@@ -2407,10 +2408,10 @@ class VM:
         elif isinstance(method, JSBoundMethod):
             # JSBoundMethod expects this_val as first argument
             result = method(this_val, *args)
-            self.stack.append(result if result is not None else UNDEFINED)
+            self.stack.append(native_result(result))
         elif callable(method):
             result = method(*args)
-            self.stack.append(result if result is not None else UNDEFINED)
+            self.stack.append(native_result(result))
         else:
             raise JSTypeError(f"{method} is not a function")
 
@@ -2436,7 +2437,7 @@ class VM:
                 self._native_boundaries.pop()
         elif callable(callback):
             result = callback(*args)
-            return result if result is not None else UNDEFINED
+            return native_result(result)
         else:
             raise JSTypeError(f"{callback} is not a function")
 
